@@ -1228,6 +1228,34 @@ fn get_nonterminals_resolution_order(
         debug_assert!(path.is_empty());
     }
 
+    // Whatever is still unvisited is not reachable from any root, which is only possible if it lies
+    // on a cycle (or hangs off one).  Traverse those too so the cycle gets reported instead of being
+    // expanded forever later on.
+    let mut unvisited: Vec<Ustr> = dependency_graph
+        .keys()
+        .filter(|vertex| !visited.contains(*vertex))
+        .copied()
+        .collect();
+    unvisited.sort_unstable_by(|left, right| left.as_str().cmp(right.as_str()));
+    for vertex in unvisited {
+        if visited.contains(&vertex) {
+            continue;
+        }
+        path.push((
+            vertex,
+            nonterminal_definitions.get(&vertex).unwrap().lhs_span,
+        ));
+        traverse_nonterminal_dependencies_dfs(
+            vertex,
+            &dependency_graph,
+            &mut path,
+            &mut visited,
+            &mut result,
+        )?;
+        path.clear();
+        result.push(vertex);
+    }
+
     // Filter out nonterminals that don't depend on any other as they are already fully resolved.
     result.retain(|vertex| {
         dependency_graph
